@@ -22,8 +22,9 @@ BATCH = 40
 
 DET = ['emm', 'emm_obj', 'emm_lumped', 'its', 'ck', 'coring', 'coring_obj', 'wt', 'paths', 'sim', 'shift',
        'rename_idx', 'rename_pop', 'unique', 'peq', 'is_ergodic', 'mask', 'eig', 'gauss', 'gauss2d', 'rmean',
-       'rownorm', 'mpow', 'swapcols', 'swapcols_f', 'format', 'statetraj', 'peq_big', 'eig_big', 'sim_obj', 'ck_obj']
-RND = ['mcmc', 'msm_wt', 'msm_tt', 'msm_paths', 'tmat']
+       'rownorm', 'mpow', 'swapcols', 'swapcols_f', 'format', 'statetraj', 'peq_big', 'eig_big', 'sim_obj', 'ck_obj',
+       'ck_arr', 'its_arr', 'wt_arr']
+RND = ['mcmc', 'msm_wt', 'msm_tt', 'msm_paths', 'tmat', 'tmat_neg']
 
 
 def gen(rng, tier):
@@ -140,7 +141,13 @@ def impl(case):
     table_f = np.asfortranarray(np.array([[float(v), float(v * v % 7), float(v % 3)] for v in case['trajs'][0]]))
     row1 = np.array([[1.0, 2.0, 3.0]])
     oobj = mh.StateTraj([np.array(t) for t in other])
-    shared = {'trajs': trajs, 'arr2': arr2, 'obj': obj, 'lobj': lobj, 'T': T, 'series': series, 'table': table,
+    lagarr = np.array([case['lag'] + 2, case['lag'], case['lag'] + 1])        # parameters handed over as (unsorted) arrays
+    Tneg = T.copy()                                                            # row-stochastic, with one negative entry
+    Tneg[0, int(np.argmax(T[0]))] += 0.05 + T[0].min()
+    Tneg[0, int(np.argmin(T[0]))] -= 0.05 + T[0].min()
+    Sarr, Farr = np.array(case['S']), np.array(case['F'])
+    shared = {'lagarr': lagarr, 'Tneg': Tneg, 'Sarr': Sarr, 'Farr': Farr,
+              'trajs': trajs, 'arr2': arr2, 'obj': obj, 'lobj': lobj, 'T': T, 'series': series, 'table': table,
               'other': other, 'S': list(case['S']), 'F': list(case['F']), 'Tbig': Tbig, 'table_f': table_f, 'row1': row1,
               'oobj': oobj}
 
@@ -193,6 +200,11 @@ def impl(case):
         'sim_obj': lambda: [mh.md.compare_discretization(obj, oobj), mh.md.compare_discretization(oobj, obj, method='directed')],
         'ck_obj': lambda: {str(k): [v['time'].tolist(), {str(s): c.tolist() for s, c in v['ck'].items()}]
                            for k, v in mh.msm.ck_test(obj, [lag], 3 * lag + 1).items()},
+        'ck_arr': lambda: {str(k): [v['time'].tolist(), {str(s): c.tolist() for s, c in v['ck'].items()}]
+                           for k, v in mh.msm.ck_test(trajs, lagarr, 3 * lag + 3).items()},
+        'its_arr': lambda: mh.msm.implied_timescales(obj, lagarr),
+        'wt_arr': lambda: mh.md.estimate_waiting_times(trajs, Sarr, Farr),
+        'tmat_neg': lambda: mh.utils.datasets.propagate_tmat(Tneg, 40),
         'format': lambda: mh.utils.format_state_traj(arr2),
         'statetraj': lambda: [mh.StateTraj(trajs).trajs, mh.StateTraj(arr2).index_trajs, mh.StateTraj(obj) is obj],
         'mcmc': lambda: mh.msm.timescales.propagate_MCMC(trajs, lag, 50),
